@@ -92,7 +92,12 @@ func genJSONRecord(r *Run, n int, seed uint32) []byte {
 	g := r.Gen
 	pad := strings.Repeat("x", n)
 	ws := []string{"", " ", "\n", "\t ", "\r\n"}[g.Int("ws", 5)]
-	switch g.Int("jsonshape", 4) {
+	switch g.Int("jsonshape", 6) {
+	case 4:
+		// any complete JSON value is a record: strings and constants delimit themselves
+		return []byte(fmt.Sprintf(`"s%d %s \"q\" \\ {[,"`, seed%1000, pad))
+	case 5:
+		return []byte([]string{"true", "false"}[seed%2])
 	case 0:
 		return []byte(fmt.Sprintf(`{%s"jsonrpc":%s"2.0",%s"id":%d,"method":"m","params":{"p":"%s"}}`, ws, ws, ws, seed%1000, pad))
 	case 1:
@@ -116,8 +121,8 @@ func (emptyR) Read(p []byte) (int, error) { return 0, io.EOF }
 func configureStream(r *Run, st *SimStream, total int) string {
 	g := r.Gen
 	w := []int{2, 4, 2, 3}
-	if total > 20000 {
-		w[0] = 0
+	if total > 8000 {
+		w[0] = 0 // byte-by-byte delivery of a long stream would only hit the step cap
 	}
 	st.Mode = g.Weighted("chunkmode", w)
 	desc := ""
@@ -143,11 +148,22 @@ func configureStream(r *Run, st *SimStream, total int) string {
 	return desc
 }
 
-func scenarioC11(r *Run) {
-	strat := r.drawStrategy()
+// c11dir is one direction of a round-trip run: a sender task and a receiver task.
+type c11dir struct {
+	name             string
+	chS, chR         channel.Channel
+	st               *SimStream
+	recs             [][]byte
+	refuse           int
+	got              [][]byte
+	recvErr, again   error
+	sendErr          string
+	big              bool
+}
+
+func genRecords(r *Run, fs framingSpec, max int) ([][]byte, int, bool) {
 	g := r.Gen
-	fs := pickFraming(r, true)
-	n := g.Int("nrecords", 7)
+	n := g.Int("nrecords", max+1)
 	var recs [][]byte
 	total := 0
 	big := false
@@ -172,115 +188,159 @@ func scenarioC11(r *Run) {
 		recs = append(recs, rec)
 		total += len(rec) + 60
 	}
-	// a record the framing cannot represent
-	refuse := -1
-	if fs.Kind == "split" && g.Chance("splitbyteinside", 0.3) {
-		refuse = g.Int("refuseat", len(recs)+1)
-	}
-	var chS, chR channel.Channel
-	var st *SimStream
-	policy := "in-memory"
-	if fs.Kind == "direct" {
-		chS, chR = channel.Direct()
-	} else {
-		st = NewSimStream(r)
-		policy = configureStream(r, st, total)
-		chS = fs.F(emptyR{}, st)
-		chR = fs.F(st, nopWC{})
-	}
-	var lens []int
-	for _, rec := range recs {
-		lens = append(lens, len(rec))
-	}
-	r.Sample = map[string]any{"strategy": strat, "framing": fs.Name, "record_lengths": lens, "fragmentation": policy, "refused_record_at": refuse}
+	return recs, total, big
+}
 
-	var got [][]byte
-	var recvErr, again error
-	sendErr := ""
-	r.Sim.Spawn("a-send", func() {
-		for i := 0; i <= len(recs); i++ {
-			if i == refuse {
+func (d *c11dir) spawn(r *Run, fs framingSpec) {
+	r.Sim.Spawn("a-send-"+d.name, func() {
+		for i := 0; i <= len(d.recs); i++ {
+			if i == d.refuse {
 				bad := append(fill(5, 7, fs.Split), byte(fs.Split), 'x')
-				before := st.Written
-				err := chS.Send(bad)
+				before := d.st.Written
+				err := d.chS.Send(bad)
 				if err == nil {
 					r.Fail("split-byte-accepted", "%s: Send accepted a record containing the split byte", fs.Name)
 					return
 				}
-				if st.Written != before {
-					r.Fail("bytes-written-on-refused-send", "%s: Send refused a record containing the split byte but wrote %d bytes", fs.Name, st.Written-before)
+				if d.st.Written != before {
+					r.Fail("bytes-written-on-refused-send", "%s: Send refused a record containing the split byte but wrote %d bytes", fs.Name, d.st.Written-before)
 					return
 				}
 			}
-			if i == len(recs) {
+			if i == len(d.recs) {
 				break
 			}
-			cp := append([]byte(nil), recs[i]...)
-			if err := chS.Send(cp); err != nil {
-				sendErr = fmt.Sprintf("Send of record %d failed: %v", i, err)
+			cp := append([]byte(nil), d.recs[i]...)
+			if err := d.chS.Send(cp); err != nil {
+				d.sendErr = fmt.Sprintf("Send of record %d failed: %v", i, err)
 				return
 			}
 		}
-		chS.Close()
+		d.chS.Close()
 	})
-	r.Sim.Spawn("b-recv", func() {
+	r.Sim.Spawn("b-recv-"+d.name, func() {
 		for {
-			b, err := chR.Recv()
+			b, err := d.chR.Recv()
 			if err != nil {
 				if len(b) != 0 {
-					got = append(got, append([]byte(nil), b...))
+					d.got = append(d.got, append([]byte(nil), b...))
 				}
-				recvErr = err
-				_, again = chR.Recv()
+				d.recvErr = err
+				_, d.again = d.chR.Recv()
 				return
 			}
-			got = append(got, append([]byte(nil), b...))
-			if len(got) > len(recs)+2 {
+			d.got = append(d.got, append([]byte(nil), b...))
+			if len(d.got) > len(d.recs)+2 {
 				return
 			}
 			rt.Yield("recv:loop")
 		}
 	})
-	if !r.RunQ() {
+}
+
+func (d *c11dir) judge(r *Run, fs framingSpec) {
+	name := fs.Name + " (" + d.name + ")"
+	if d.sendErr != "" {
+		r.Fail("send-failed", "%s: %s", name, d.sendErr)
 		return
 	}
-	if r.Failed() {
-		return
-	}
-	if sendErr != "" {
-		r.Fail("send-failed", "%s: %s", fs.Name, sendErr)
-		return
-	}
-	if st != nil {
-		h := rt.HashString(fmt.Sprint(fs.Name, lens, st.Mode, st.CutAt, st.MaxChunk, st.EOFWithData, st.NRead, st.Cuts))
-		r.extra = h | 1
-		if st.Cuts > 0 {
-			r.Probe("stream-was-fragmented")
+	for i := range d.recs {
+		if i >= len(d.got) {
+			r.Fail("record-mismatch", "%s: %d records sent, only %d received (then %v)", name, len(d.recs), len(d.got), d.recvErr)
+			return
 		}
-		if big {
+		if !bytes.Equal(d.got[i], d.recs[i]) {
+			r.Fail("record-mismatch", "%s: record %d differs: sent %d bytes %s, received %d bytes %s", name, i, len(d.recs[i]), preview(d.recs[i]), len(d.got[i]), preview(d.got[i]))
+			return
+		}
+	}
+	if len(d.got) > len(d.recs) {
+		r.Fail("record-mismatch", "%s: %d records sent, %d received; extra: %s", name, len(d.recs), len(d.got), preview(d.got[len(d.recs)]))
+		return
+	}
+	if d.recvErr != io.EOF {
+		r.Fail("missing-eof", "%s: after the last record Recv returned %v, want io.EOF", name, d.recvErr)
+		return
+	}
+	if d.again != io.EOF {
+		r.Fail("missing-eof", "%s: a further Recv after io.EOF returned %v, want io.EOF again", name, d.again)
+	}
+}
+
+func scenarioC11(r *Run) {
+	strat := r.drawStrategy()
+	g := r.Gen
+	fs := pickFraming(r, true)
+	// duplex: each channel value both sends and receives (as every Server and
+	// Client uses it); simplex: one value only sends, another only receives
+	duplex := fs.Kind == "direct" || g.Chance("duplex", 0.4)
+	ab := &c11dir{name: "A->B", refuse: -1}
+	var total int
+	ab.recs, total, ab.big = genRecords(r, fs, 6)
+	if fs.Kind == "split" && g.Chance("splitbyteinside", 0.3) {
+		ab.refuse = g.Int("refuseat", len(ab.recs)+1)
+	}
+	dirs := []*c11dir{ab}
+	policy := "in-memory"
+	switch {
+	case fs.Kind == "direct":
+		c, s := channel.Direct()
+		ba := &c11dir{name: "B->A", refuse: -1}
+		ba.recs, _, _ = genRecords(r, fs, 3)
+		ab.chS, ab.chR = c, s
+		ba.chS, ba.chR = s, c
+		dirs = append(dirs, ba)
+	case duplex:
+		ba := &c11dir{name: "B->A", refuse: -1}
+		var total2 int
+		ba.recs, total2, ba.big = genRecords(r, fs, 4)
+		ab.st, ba.st = NewSimStream(r), NewSimStream(r)
+		policy = configureStream(r, ab.st, total) + " / " + configureStream(r, ba.st, total2)
+		a := fs.F(ba.st, ab.st) // endpoint A reads what B wrote, writes towards B
+		b := fs.F(ab.st, ba.st)
+		ab.chS, ab.chR = a, b
+		ba.chS, ba.chR = b, a
+		dirs = append(dirs, ba)
+		r.Probe("duplex-use-of-one-channel-value")
+	default:
+		ab.st = NewSimStream(r)
+		policy = configureStream(r, ab.st, total)
+		ab.chS = fs.F(emptyR{}, ab.st)
+		ab.chR = fs.F(ab.st, nopWC{})
+	}
+	var lens [][]int
+	for _, d := range dirs {
+		var l []int
+		for _, rec := range d.recs {
+			l = append(l, len(rec))
+		}
+		lens = append(lens, l)
+	}
+	r.Sample = map[string]any{"strategy": strat, "framing": fs.Name, "record_lengths_per_direction": lens, "fragmentation": policy, "refused_record_at": ab.refuse, "duplex": len(dirs) == 2}
+	for _, d := range dirs {
+		d.spawn(r, fs)
+	}
+	if !r.RunQ() || r.Failed() {
+		return
+	}
+	h := rt.HashString(fmt.Sprint(fs.Name, lens, policy))
+	for _, d := range dirs {
+		if d.st != nil {
+			h ^= rt.HashString(fmt.Sprint(d.st.Mode, d.st.CutAt, d.st.MaxChunk, d.st.EOFWithData, d.st.NRead, d.st.Cuts))
+			if d.st.Cuts > 0 {
+				r.Probe("stream-was-fragmented")
+			}
+		}
+		if d.big {
 			r.Probe("record-over-1MiB-then-small")
 		}
 	}
-	for i := range recs {
-		if i >= len(got) {
-			r.Fail("record-mismatch", "%s: %d records sent, only %d received (then %v)", fs.Name, len(recs), len(got), recvErr)
+	r.extra = h | 1
+	for _, d := range dirs {
+		d.judge(r, fs)
+		if r.Failed() {
 			return
 		}
-		if !bytes.Equal(got[i], recs[i]) {
-			r.Fail("record-mismatch", "%s: record %d differs: sent %d bytes %s, received %d bytes %s", fs.Name, i, len(recs[i]), preview(recs[i]), len(got[i]), preview(got[i]))
-			return
-		}
-	}
-	if len(got) > len(recs) {
-		r.Fail("record-mismatch", "%s: %d records sent, %d received; extra: %s", fs.Name, len(recs), len(got), preview(got[len(recs)]))
-		return
-	}
-	if recvErr != io.EOF {
-		r.Fail("missing-eof", "%s: after the last record Recv returned %v, want io.EOF", fs.Name, recvErr)
-		return
-	}
-	if again != io.EOF {
-		r.Fail("missing-eof", "%s: a further Recv after io.EOF returned %v, want io.EOF again", fs.Name, again)
 	}
 }
 
